@@ -365,11 +365,20 @@ func (cx *Ctx) c18Range(r *Report) {
 				found = true
 				args := c.Common().Args
 				num, den := args[1], args[2]
+				// a modulus kept in a package-level variable that is computed once and never
+				// assigned again is one value wherever it is loaded
+				resolve := func(v ssa.Value) ssa.Value {
+					if iv := cx.initOnceValue(v); iv != nil {
+						return iv
+					}
+					return v
+				}
+				den = resolve(den)
 				ok2 := false
 				why := ""
 				if m, ok := num.(*ssa.Call); ok {
 					if pkg, name := calleeName(m.Common()); pkg == "math/big" && name == "Int.Mod" {
-						if m.Common().Args[2] == den {
+						if resolve(m.Common().Args[2]) == den {
 							ok2 = true
 						} else {
 							why = "the modulus and the denominator are different values"
